@@ -27,6 +27,7 @@ from ..framework import lean_driver, InfraError, REPO
 PROP = "C10"
 LEAN_TARGETS = ["Eliot.Properties.C10"]
 AUDIT = "Eliot/Audit/C10.lean"
+SKELETON_TARGETS = {"Eliot.ShapesSkel.C10_shapes (E16: json_default and FileDestination.__new__ (mode detection) as statement lists)": ("Eliot.Properties.ShapesSkel", "Eliot/Audit/ShapesSkel.lean", ["Eliot.ShapesSkel.jsonDefaultBody_shape", "Eliot.ShapesSkel.fileDestinationNewBody_shape"])}
 THEOREMS = [
     "EJ.C10.encode_no_newline", "EJ.C10.encode_is_object", "EJ.C10.encode_valid_utf8",
     "EJ.C10.nonfinite_to_null", "EJ.C10.rich_types_documented",
